@@ -1080,10 +1080,18 @@ def eval_baseline(text, d):
     return EVAL_BASE[(text, d)]
 
 
-def eval_case(texts, datas, schedule, warm):
+def eval_case(texts, datas, schedule, warm, level='cold'):
+    """level: 'cold' = all three module caches empty; 'engine' = the engine is there; 'context' = engine and
+    default context are there (only the expression cache is empty, plus whatever `warm` puts into it)"""
     import yaql
     want = [eval_baseline(t, d) for t, d in zip(texts, datas)]
-    reset_eval_caches()
+    if level == 'cold' or yaql._cached_engine is None or yaql._default_context is None:
+        reset_eval_caches()
+        if level != 'cold':
+            eval_outcome('1', 0)
+    yaql._cached_expressions = {}
+    if level == 'engine':
+        yaql._default_context = None
     if warm:
         for t in warm:
             eval_outcome(t, 0)
@@ -1096,25 +1104,30 @@ def eval_case(texts, datas, schedule, warm):
         CUR[0] = None
     if s.hung:
         raise HarnessProblem('yaql.eval threads did not finish: %r %r' % (texts, schedule))
-    case = dict(kind='eval', texts=texts, datas=datas, schedule=list(s.trace), warm=warm)
-    cache_state = (yaql._cached_engine is not None, yaql._default_context is not None, sorted(yaql._cached_expressions))
-    parsed = dict((t, str(e)) for t, e in yaql._cached_expressions.items())
-    # sequential baseline on fresh caches
+    case = dict(kind='eval', texts=texts, datas=datas, schedule=list(s.trace), warm=warm, level=level)
     for i, (t, d) in enumerate(zip(texts, datas)):
         w = want[i]
         got = list(results[i]) if results[i] is not None else None
         if got != w:
             return dict(kind='oracle', key='interference',
-                        what='yaql.eval(%r, data #%d) in thread %d under schedule %r (others %r, warm %r) returned %r; alone on '
-                             'fresh caches: %r' % (t, d, i, s.trace, texts, warm, got, w), case=case), s
-    # the caches hold functions of their keys
-    fresh = EVAL_BASE.setdefault('engine', None) or yaql.YaqlFactory().create()
+                        what='yaql.eval(%r, data #%d) in thread %d under schedule %r (others %r, warm %r, caches %s) returned %r; '
+                             'alone on fresh caches: %r' % (t, d, i, s.trace, texts, warm, level, got, w), case=case), s
+    # what the concurrent phase left in the module caches must serve later callers correctly
+    for t, d in sorted(set(zip(texts, datas))):
+        got = eval_outcome(t, d)
+        if got != eval_baseline(t, d):
+            return dict(kind='oracle', key='interference',
+                        what='after threads evaluated %r under schedule %r (caches %s), a later yaql.eval(%r, data #%d) returns %r; '
+                             'on fresh caches: %r' % (texts, s.trace, level, t, d, got, eval_baseline(t, d)), case=case), s
+    # model assumption: the expression cache holds, under each text, the parse of that text
+    fresh = EVAL_BASE.get('engine') or yaql.YaqlFactory().create()
     EVAL_BASE['engine'] = fresh
-    for t, shown in parsed.items():
-        if shown != str(fresh(t)):
-            return dict(kind='oracle', key='cache-entry-not-function-of-key',
-                        what='_cached_expressions[%r] is %r after schedule %r, a fresh parse gives %r' % (t, shown, s.trace, str(fresh(t))),
-                        case=case), s
+    from yaql.language import expressions
+    for t, e in list(yaql._cached_expressions.items()):
+        if not isinstance(e, expressions.Statement) or str(e) != str(fresh(t)):
+            return dict(kind='mismatch', key='eval-cache-entry',
+                        what='_cached_expressions[%r] is %r after schedule %r; the model expects the parse of the text (%r)' % (
+                            t, str(e)[:120], s.trace, str(fresh(t))), case=case), s
     return None, s
 
 
@@ -1518,38 +1531,47 @@ def hard(res):
 def part_b(env, res, rng, hist, deadline):
     tier = env['tier']
     n0 = len(res.failures)
-    st = dict(cases=0, schedules=0, cold=0, warm=0, same_text=0)
+    st = dict(cases=0, schedules=0, levels={}, warm=0, same_text=0, threads={})
     un1 = install_call_point()
     un2 = install_eval_points()
     try:
-        n = 40 if tier == 'quick' else 600
+        n = 400 if tier == 'quick' else 6000
         for ci in range(n):
             if len(res.failures) > n0 or time.time() > deadline:
                 break
             k = rng.choice([2, 2, 3])
-            if rng.random() < 0.5:
+            if rng.random() < 0.6:
                 texts = [rng.choice(EVAL_TEXTS)] * k
                 st['same_text'] += 1
             else:
                 texts = [rng.choice(EVAL_TEXTS) for _ in range(k)]
-            datas = [rng.randrange(len(DATAS)) for _ in texts]
+            d0 = rng.randrange(len(DATAS))
+            datas = [(d0 + j) % len(DATAS) for j in range(k)] if rng.random() < 0.7 else [rng.randrange(len(DATAS)) for _ in texts]
             warm = [] if rng.random() < 0.6 else [rng.choice(EVAL_TEXTS)]
-            st['cold' if not warm else 'warm'] += 1
+            level = 'cold' if ci % 12 == 0 else rng.choice(['engine', 'context', 'context'])
+            st['levels'][level] = st['levels'].get(level, 0) + 1
+            st['warm'] += bool(warm)
             st['cases'] += 1
-            # the interesting steps are the first ones (cache misses): systematic prefixes, then random
+            st['threads'][str(k)] = st['threads'].get(str(k), 0) + 1
+            # the cache misses come first: systematic prefixes, then <=3-preemption and random schedules
             scheds = [[0, 1], [0, 1, 0, 1], [1, 0, 0, 1], [0, 1, 1, 0, 0], [0, 0, 1, 1, 1, 0], [1, 1, 0, 0, 0, 1, 1]]
             if k == 3:
                 scheds += [[0, 1, 2], [0, 1, 2, 2, 1, 0], [2, 1, 0, 0, 1, 2, 1]]
             rng.shuffle(scheds)
-            scheds = scheds[:2 if tier == 'quick' else 6]
-            scheds.append([rng.randrange(k) for _ in range(rng.randrange(3, 40))])
+            scheds = scheds[:2 if level == 'cold' else 4]
+            if level != 'cold':
+                for _ in range(6):
+                    sc = []
+                    for _ in range(rng.randrange(2, 12)):
+                        sc += [rng.randrange(k)] * rng.randrange(1, 9)
+                    scheds.append(sc)
             for sc in scheds:
-                f, s = eval_case(texts, datas, sc, warm)
+                f, s = eval_case(texts, datas, sc, warm, level)
                 st['schedules'] += 1
                 res.traces += 1
                 sw = sum(1 for a, b in zip(s.trace, s.trace[1:]) if a != b)
-                res.case(('eval', tuple(texts), tuple(datas), tuple(s.trace), tuple(warm)), nontrivial=sw >= 2,
-                         sample=dict(kind='eval', texts=texts, datas=datas, schedule=s.trace, warm=warm) if st['schedules'] == 1 else None)
+                res.case(('eval', tuple(texts), tuple(datas), tuple(s.trace), tuple(warm), level), nontrivial=sw >= 2,
+                         sample=dict(kind='eval', texts=texts, datas=datas, schedule=s.trace, warm=warm, level=level) if st['schedules'] == 1 else None)
                 if f is not None:
                     res.fail(f['kind'], f['key'], f['what'], f['case'])
                     break
@@ -1782,7 +1804,7 @@ def replay(env, res, case):
     elif kind == 'eval':
         un1, un2 = install_call_point(), install_eval_points()
         try:
-            f, s = eval_case(case['texts'], case['datas'], case['schedule'], case.get('warm') or [])
+            f, s = eval_case(case['texts'], case['datas'], case['schedule'], case.get('warm') or [], case.get('level', 'cold'))
         finally:
             un2()
             un1()
